@@ -5,11 +5,41 @@
 #include "vp.h"
 #include "dnsrec_abs.h"
 
+/* the abstract record: real header struct first (so the public pointer type works), abstract payload after */
+typedef struct {
+  ares_dns_record_t rec;
+  char             *qname;   /* single question name (owned), NULL = no question */
+  int               qtype, qclass;
+  size_t            ancount; /* abstract answer count */
+} vp_absrec_t;
+
+void vp_absrec_set_question(ares_dns_record_t *r, const char *name, int qtype, int qclass)
+{
+  vp_absrec_t *a = (vp_absrec_t *)r;
+  size_t       n = 0, i;
+  if (a->qname != NULL)
+    vp_free(a->qname);
+  while (name[n] != 0)
+    n++;
+  a->qname = vp_malloc(n + 1);
+  for (i = 0; i <= n; i++)
+    a->qname[i] = name[i];
+  a->qtype  = qtype;
+  a->qclass = qclass;
+}
+void   vp_absrec_set_ancount(ares_dns_record_t *r, size_t n) { ((vp_absrec_t *)r)->ancount = n; }
+
 ares_dns_record_t *vp_absrec_new(unsigned short id)
 {
-  ares_dns_record_t *r = vp_malloc(sizeof(*r));
-  if (r == NULL)
+  vp_absrec_t       *a = vp_malloc(sizeof(*a));
+  ares_dns_record_t *r;
+  if (a == NULL)
     return NULL;
+  a->qname   = NULL;
+  a->qtype   = 1;
+  a->qclass  = 1;
+  a->ancount = 0;
+  r          = &a->rec;
   r->id            = id;
   r->flags         = 0;
   r->opcode        = ARES_OPCODE_QUERY;
@@ -23,6 +53,8 @@ void ares_dns_record_destroy(ares_dns_record_t *dnsrec)
 {
   if (dnsrec == NULL)
     return;
+  if (((vp_absrec_t *)dnsrec)->qname != NULL)
+    vp_free(((vp_absrec_t *)dnsrec)->qname);
   vp_free(dnsrec);
 }
 unsigned short   ares_dns_record_get_id(const ares_dns_record_t *r) { return r ? r->id : 0; }
@@ -36,3 +68,46 @@ ares_bool_t      ares_dns_record_set_id(ares_dns_record_t *r, unsigned short id)
 unsigned short   ares_dns_record_get_flags(const ares_dns_record_t *r) { return r ? r->flags : 0; }
 ares_dns_rcode_t ares_dns_record_get_rcode(const ares_dns_record_t *r) { return r ? r->rcode : 0; }
 ares_dns_opcode_t ares_dns_record_get_opcode(const ares_dns_record_t *r) { return r ? r->opcode : 0; }
+
+size_t ares_dns_record_query_cnt(const ares_dns_record_t *r) { return (r && ((const vp_absrec_t *)r)->qname) ? 1 : 0; }
+ares_status_t ares_dns_record_query_get(const ares_dns_record_t *r, size_t idx, const char **name,
+                                        ares_dns_rec_type_t *qtype, ares_dns_class_t *qclass)
+{
+  const vp_absrec_t *a = (const vp_absrec_t *)r;
+  if (r == NULL || idx != 0 || a->qname == NULL)
+    return ARES_EFORMERR;
+  if (name) *name = a->qname;
+  if (qtype) *qtype = (ares_dns_rec_type_t)a->qtype;
+  if (qclass) *qclass = (ares_dns_class_t)a->qclass;
+  return ARES_SUCCESS;
+}
+/* may fail like the real one (allocation) */
+int vp_absrec_setname_may_fail = 0;
+ares_status_t ares_dns_record_query_set_name(ares_dns_record_t *r, size_t idx, const char *name)
+{
+  vp_absrec_t *a = (vp_absrec_t *)r;
+  if (r == NULL || idx != 0 || name == NULL || a->qname == NULL)
+    return ARES_EFORMERR;
+  if (vp_absrec_setname_may_fail && vp_bool())
+    return ARES_ENOMEM;
+  vp_absrec_set_question(r, name, a->qtype, a->qclass);
+  return ARES_SUCCESS;
+}
+size_t ares_dns_record_rr_cnt(const ares_dns_record_t *r, ares_dns_section_t sect)
+{
+  if (r == NULL) return 0;
+  return sect == ARES_SECTION_ANSWER ? ((const vp_absrec_t *)r)->ancount : 0;
+}
+int vp_absrec_dup_may_fail = 0;
+ares_dns_record_t *ares_dns_record_duplicate(const ares_dns_record_t *r)
+{
+  const vp_absrec_t *a = (const vp_absrec_t *)r;
+  ares_dns_record_t *d;
+  if (r == NULL) return NULL;
+  if (vp_absrec_dup_may_fail && vp_bool()) return NULL;
+  d = vp_absrec_new(r->id);
+  d->flags = r->flags; d->opcode = r->opcode; d->rcode = r->rcode;
+  if (a->qname) vp_absrec_set_question(d, a->qname, a->qtype, a->qclass);
+  vp_absrec_set_ancount(d, a->ancount);
+  return d;
+}
